@@ -44,7 +44,7 @@ def simulate(configfile, outfile, gtis=None, du_id=1, seed=1, roi_model=None, **
     if roi_model is None:
         roi_model = import_roi(configfile)
     numpy.random.seed(seed + du_id - 1)
-    irf_set = load_irf_set(kwargs['irfname'], du_id)
+    irf_set = load_irf_set(kwargs['irfname'], du_id, gray_filter=bool(kwargs.get('grayfilter')))    # as bin/xpobssim.py does
     event_list = roi_model.rvs_event_list(irf_set, **kwargs)
     event_list.write_fits('verif', roi_model, irf_set, **kwargs)
     return outfile
